@@ -164,7 +164,7 @@ let parse_grant s =
         | _ -> failwith ("bad grant " ^ r))
       (split_on ';' s)
 
-type impl_out = { grant : allocation option; none : bool; panic : bool; enabled : bool option; ok : bool; released : bool; pools : pool list; free : cstate list; has_snap : bool }
+type impl_out = { grant : allocation option; none : bool; panic : bool; vpanic : bool; enabled : bool option; ok : bool; released : bool; pools : pool list; free : cstate list; has_snap : bool }
 
 let parse_impl lines =
   List.fold_left
@@ -174,13 +174,14 @@ let parse_impl lines =
       | [ "GRANT" ] -> { o with grant = Some [] }
       | "NONE" :: _ -> { o with none = true }
       | "PANIC" :: _ -> { o with panic = true }
+      | "VALIDATE-PANIC" :: _ -> { o with vpanic = true }
       | "OK" :: _ -> { o with ok = true }
       | "RELEASED" :: _ -> { o with released = true }
       | "ENABLED" :: b :: _ -> { o with enabled = Some (b = "1") }
       | "P" :: rest -> { o with pools = o.pools @ [ parse_pool rest ]; has_snap = true }
       | "F" :: rest -> { o with free = o.free @ [ parse_cstate rest ] }
       | _ -> o)
-    { grant = None; none = false; panic = false; enabled = None; ok = false; released = false; pools = []; free = []; has_snap = false }
+    { grant = None; none = false; panic = false; vpanic = false; enabled = None; ok = false; released = false; pools = []; free = []; has_snap = false }
     lines
 
 (* ---------- one trace ---------- *)
@@ -203,6 +204,7 @@ let process_trace header lines =
   in
   let model : sys option ref = ref None in
   let model_dead = ref false in
+  let model_panic_now = ref false in
   let tags = Hashtbl.create 16 in
   let tag t = Hashtbl.replace tags t () in
   let fails = ref [] in
@@ -217,6 +219,7 @@ let process_trace header lines =
   List.iter
     (fun (o, impl_lines) ->
       Printf.printf "O %s\n" o;
+      model_panic_now := false;
       let impl = parse_impl impl_lines in
       let toks = words o in
       (* ----- model ----- *)
@@ -230,6 +233,7 @@ let process_trace header lines =
               print_snapshot s.s_alloc.a_pools s.s_alloc.a_free
           | Panic site ->
               model_dead := true;
+              model_panic_now := true;
               tag ("panic-site-" ^ son site);
               print_endline "= PANIC"
           | Disabled ->
@@ -268,9 +272,14 @@ let process_trace header lines =
                         | OutEnabled b -> Printf.printf "= ENABLED %d\n" (if b then 1 else 0))
                     | Panic site ->
                         model_dead := true;
+                        model_panic_now := true;
                         tag ("panic-site-" ^ son site);
                         print_endline "= PANIC"
                     | Disabled -> print_endline "= WITNESS-REJECTED"))));
+      (* a panic of the implementation (incl. its debug validate()) that the model does not predict *)
+      if impl.vpanic then fail "C04" "validate-panic" (Printf.sprintf "the allocator's own consistency check validate() failed after '%s'" o);
+      if impl.panic && not !model_panic_now then
+        fail "C04" "unexpected-panic" (Printf.sprintf "the implementation panicked at '%s' (allocator code or its validate()), the model does not" o);
       (* ----- monitors on the implementation's outputs ----- *)
       (try
          match toks with
@@ -328,6 +337,7 @@ let process_trace header lines =
                        fail "C16" "group-count" (Printf.sprintf "entry %s grant %s uses %s groups" (entry_s e) (grant_s [ ra ]) (son (groups_used ra)));
                      if not (scatter_ok before e ra) then fail "C16" "scatter-shape" (Printf.sprintf "entry %s grant %s" (entry_s e) (grant_s [ ra ]));
                      if not (compact_even_ok before e ra) then fail "C16" "compact-shape" (Printf.sprintf "entry %s grant %s" (entry_s e) (grant_s [ ra ]));
+                     if not (min_fraction_ok before e ra) then fail "C16" "min-fraction" (Printf.sprintf "entry %s grant %s" (entry_s e) (grant_s [ ra ]));
                      if not (tight_ok before e ra) then fail "C16" "tight-shape" (Printf.sprintf "entry %s grant %s" (entry_s e) (grant_s [ ra ])))
                    (if List.length es = List.length al then es else [])
                    (if List.length es = List.length al then al else []);
